@@ -445,6 +445,9 @@ func (e *Engine) initStubs() {
 			if nonEmpty {
 				p = q
 				if v := e.poolTake(st, th, p); v != nil {
+					if iv, ok := v.(IfaceV); ok {
+						e.poolMark(st, iv, false)
+					}
 					return v
 				}
 			} else {
@@ -474,10 +477,12 @@ func (e *Engine) initStubs() {
 		p := c.args[0].(Ptr)
 		x := c.args[1].(IfaceV)
 		if e.PoolPrecise {
-			p, _ = e.poolResolve(st, p, false)
+			p, _ = e.poolResolve(st, p, false) // may fork (the instruction is re-executed): no state change before it
+			e.poolMark(st, x, true)
 			e.poolPut(st, th, p, x)
 			return nil
 		}
+		e.poolMark(st, x, true)
 		e.havoc(st, th, x)
 		return nil
 	})
@@ -552,12 +557,15 @@ func (e *Engine) initStubs() {
 		dec := c.args[0].(Ptr)
 		dt := deref(c.fn.Params[0].Type()).Underlying().(*types.Struct)
 		var r Value
+		var pending Ptr
 		useNumber, disallow := tb.False, tb.False
 		root := loadPath(st.obj(dec.Obj).V, dec.Path).(*StructV)
 		for i := 0; i < dt.NumFields(); i++ {
 			switch dt.Field(i).Name() {
 			case "r":
 				r = root.F[i]
+			case "buf":
+				pending = Ptr{Obj: dec.Obj, Path: pathAppend(dec.Path, i)}
 			case "d":
 				ds := root.F[i].(*StructV)
 				dst := dt.Field(i).Type().Underlying().(*types.Struct)
@@ -574,7 +582,7 @@ func (e *Engine) initStubs() {
 		if c.instr == nil {
 			panic(&Unsupported{"deferred json Decode"})
 		}
-		e.pushFrame(st, th, helper, nil, []Value{r, useNumber, disallow, c.args[1]}, false)
+		e.pushFrame(st, th, helper, nil, []Value{r, pending, useNumber, disallow, c.args[1]}, false)
 		c.pushed = true
 		return nil
 	})
